@@ -86,6 +86,8 @@ GROUPS.append({"name": "preserve_macros", "label": "proved", "harness": "harness
                "assumptions": [], "instances": [{"name": "n1_7"}]})
 GROUPS += _bal_groups()
 META = {
+ "level": "other",
+ "explanation": 'mixed: the VM CONS opcode and the root-registration macros are proved without bound; the root discipline of the bignum functions and of call/cc capture under the adversarial collector is bounded by operand shape, and the save-chain balance of ~170 functions is bounded (loops unrolled twice). No unbounded statement over all allocating code is claimed.',
  "trusted_base": ["CBMC 6.11.0 front end and SAT back end", "the adversarial collector of harness/bn.h and harness/vm/vm.h (harness code): reclaims and havocs every tracked object not reachable from the registered roots at EVERY allocation",
                   "vlib/vmextract.py opcode extraction (re-creates sexp_apply's root registration of self/tmp1/tmp2 around each body)"],
  "assumptions": ["arguments are caller-rooted", "reachability is exact for the tracked object kinds (bignums hold no references; pairs and the two continuation vectors are traced)",
